@@ -85,6 +85,10 @@ CONSTS = [Fr(1), Fr(2), Fr(3), Fr(1, 2), Fr(3, 2), Fr(1, 4), Fr(-1), Fr(-2), Fr(
 #   ["call", fn, a]  ["each", fn, v]  ["eachl", v]   ({x*x}'v)
 #   ["join", [a, b, ..]]
 
+ADVERB_DYADS = {"eachR": ":/", "eachL": ":\\", "each2": "'", "overN": "/", "scanN": "\\"}
+ADV_OPS = {"+": "+", "-": "-", "*": "*", "%": "%", "^": "^", "L-": "{x-y}", "L%": "{x%y}"}
+
+
 def fr(s):
     return Fr(s)
 
@@ -139,6 +143,11 @@ def render(n):
         return f"({render(n[1])}^{n[2]})"
     if k == "gpow":
         return f"({render(n[1])}^{render(n[2])})"
+    if k in ADVERB_DYADS:
+        # a f:/b  a f:\b  a f'b  a f/b  a f\b   (f a verb or a dyadic lambda)
+        return f"({render(n[2])}{ADV_OPS[n[1]]}{ADVERB_DYADS[k]}{render(n[3])})"
+    if k == "scan":
+        return f"({ADV_OPS[n[1]]}\\{render(n[2])})"
     if k == "sum":
         return f"(+/{render(n[1])})"
     if k == "prod":
@@ -255,9 +264,18 @@ def gen_s(rng, env, depth, allow_trans, mat=None):
     if r < 0.72:
         n = rng.choice(vec_lens)
         return [rng.choice(["sum", "sum", "prod"]), gen_v(rng, env, n, depth - 1, allow_trans)]
-    if r < 0.80:
+    if r < 0.78:
         fns = RAT_FNS + (TRANS_FNS if allow_trans else ())
         return ["call", rng.choice(fns), gen_s(rng, env, depth - 1, allow_trans)]
+    if r < 0.83:
+        # adverbs with a scalar result: Over-Neutral; Each-Left / Each-Right / Each-2 of two atoms
+        op = rng.choice(["-", "%", "-", "%", "+", "*", "^", "L-", "L%"])
+        if rng.random() < 0.5:
+            n = rng.choice(vec_lens)
+            return ["overN", rng.choice(["+", "-", "*", "%", "L-"]), gen_s(rng, env, 0, allow_trans),
+                    gen_v(rng, env, n, depth - 1, allow_trans)]
+        return [rng.choice(["eachR", "eachL", "each2"]), op, gen_s(rng, env, depth - 1, allow_trans),
+                gen_s(rng, env, depth - 1, allow_trans)]
     if r < 0.88:
         n = rng.choice(vec_lens)
         return ["idx", gen_v(rng, env, n, depth - 1, allow_trans), rng.randrange(n)]
@@ -291,9 +309,25 @@ def gen_v(rng, env, n, depth, allow_trans):
         a = gen_v(rng, env, n, dd, allow_trans) if shape[0] == "v" else gen_s(rng, env, dd, allow_trans)
         b = gen_v(rng, env, n, dd, allow_trans) if shape[1] == "v" else gen_s(rng, env, dd, allow_trans)
         return ["gpow", a, b]
-    if r < 0.74:
+    if r < 0.70:
         fns = RAT_FNS + (TRANS_FNS if allow_trans else ())
         return [rng.choice(["call", "each"]), rng.choice(fns), gen_v(rng, env, n, depth - 1, allow_trans)]
+    if r < 0.78:
+        # adverbs with a vector result: a f:/b and a f:\b with one atom operand (the ATOM case of the
+        # iterated operand included), a f'b, scans
+        op = rng.choice(["-", "%", "-", "%", "+", "*", "^", "L-", "L%"])
+        kind = rng.choice(["eachR", "eachR", "eachL", "eachL", "each2", "scan", "scanN"])
+        d = rng.choice([0, depth - 1])
+        if kind in ("eachR", "eachL"):
+            if rng.random() < 0.5:      # whole operand a vector, iterated operand an atom
+                return [kind, op, gen_v(rng, env, n, d, allow_trans), gen_s(rng, env, d, allow_trans)]
+            return [kind, op, gen_s(rng, env, d, allow_trans), gen_v(rng, env, n, d, allow_trans)]
+        if kind == "each2":
+            return ["each2", op, gen_v(rng, env, n, d, allow_trans), gen_v(rng, env, n, d, allow_trans)]
+        if kind == "scan" or n < 2:
+            return ["scan", rng.choice(["+", "*", "-", "%"]), gen_v(rng, env, n, d, allow_trans)]
+        return ["scanN", rng.choice(["+", "*", "-", "%"]), gen_s(rng, env, 0, allow_trans),
+                gen_v(rng, env, n - 1, d, allow_trans)]
     if r < 0.78:
         return ["eachl", gen_v(rng, env, n, depth - 1, allow_trans)]
     return rng.choice(leaves)
@@ -510,6 +544,29 @@ def pd_eval(n, env, seed):
         return _map(pd_eval(n[1], env, seed), lambda a: dn_pow(a, n[2]))
     if k == "gpow":
         return _bc(pd_eval(n[1], env, seed), pd_eval(n[2], env, seed), dn_gpow)
+    if k in ADVERB_DYADS or k == "scan":
+        # the manual's definitions: a f:/b = f(b1;a),..,f(bN;a) (an atom b: f(b;a));  a f:\b = f(a;b1),..;
+        # a f'b = f(a1;b1),..;  a f/b = f(..f(f(a;b1);b2)..;bN);  a f\b = a, f(a;b1), f(f(a;b1);b2), ..
+        f = {"+": dn_add, "-": lambda u, v: dn_add(u, v, -1), "*": dn_mul, "%": dn_div, "^": dn_gpow,
+             "L-": lambda u, v: dn_add(u, v, -1), "L%": dn_div}[n[1]]
+        if k == "scan":
+            vs = pd_eval(n[2], env, seed)
+            out = [vs[0]]
+            for x in vs[1:]:
+                out.append(f(out[-1], x))
+            return out
+        a, b = pd_eval(n[2], env, seed), pd_eval(n[3], env, seed)
+        if k == "eachR":
+            return [_bc(x, a, f) for x in b] if isinstance(b, list) else _bc(b, a, f)
+        if k == "eachL":
+            return [_bc(a, x, f) for x in b] if isinstance(b, list) else _bc(a, b, f)
+        if k == "each2":
+            return _bc(a, b, f)
+        acc, out = a, [a]
+        for x in b:
+            acc = f(acc, x)
+            out.append(acc)
+        return acc if k == "overN" else out
     if k == "sum":
         vs = pd_eval(n[1], env, seed)
         acc = vs[0]
@@ -585,6 +642,37 @@ def lower(n, env):
         if kb == "V":
             return "V", [(op, a, y) for y in b]
         return "S", (op, a, b)
+    if k in ADVERB_DYADS or k == "scan":
+        def ap(u, v, o=n[1]):
+            if o == "^":
+                return ("f", "exp", ("*", v, ("f", "log", u)))
+            return ({"+": "+", "-": "-", "*": "*", "%": "/", "L-": "-", "L%": "/"}[o], u, v)
+
+        def bc(ku, u, kv, v):
+            if ku == "V" and kv == "V":
+                return "V", [ap(p_, q_) for p_, q_ in zip(u, v)]
+            if ku == "V":
+                return "V", [ap(p_, v) for p_ in u]
+            if kv == "V":
+                return "V", [ap(u, q_) for q_ in v]
+            return "S", ap(u, v)
+        if k == "scan":
+            _, vs = lower(n[2], env)
+            out = [vs[0]]
+            for x in vs[1:]:
+                out.append(ap(out[-1], x))
+            return "V", out
+        ka, a = lower(n[2], env)
+        kb, b = lower(n[3], env)
+        if k == "eachR":
+            return bc(kb, b, ka, a)
+        if k in ("eachL", "each2"):
+            return bc(ka, a, kb, b)
+        acc, out = a, [a]
+        for x in b:
+            acc = ap(acc, x)
+            out.append(acc)
+        return ("S", acc) if k == "overN" else ("V", out)
     if k == "gpow":
         # Klong.C06.gpow: u^v = exp (v * ln u)
         def gp(x, y):
@@ -1385,6 +1473,14 @@ def _run_case(ctx, model, real, fam, tree, params, forms=None, backends=None, qu
                 numeric = True
                 site = "torch:jacobian:numeric-fallback"
                 ctx.bump("torch-jacobian-fell-back-to-numeric")
+            if status == "exc" and backend == "torch" and not numeric and "Can't call numpy() on Tensor that requires grad" in val \
+                    and ops_in(tree) & {"each2", "scan", "scanN"}:
+                # Each-2 and the scans collect their results with the module-level numpy `asarray` /
+                # a mixed list: tracked tensors cannot pass through it
+                ctx.bump("raises:torch:autograd:adverb-collects-through-numpy")
+                ctx.oracle_fail("torch:autograd:adverb-collects-through-numpy", case, "the derivative", val,
+                                "a f'b / f\\a / a f\\b over tracked tensors raise under torch autograd")
+                continue
             if form in ("sysjac", "sysjac-named"):
                 # `.jacobian(f;p)` receives f through the interpreter's evaluation of SYSTEM-function
                 # arguments (`call`), which invokes / partially applies function values whose body holds
@@ -1401,6 +1497,13 @@ def _run_case(ctx, model, real, fam, tree, params, forms=None, backends=None, qu
                                         val if status == "exc" else g0.tolist() if g0 is not None else repr(val)[:200],
                                         ".jacobian(f;p) differs from the exact Jacobian although p∂f returns it")
                         continue
+                    # p∂f fails as well: the failure is not about how `.jacobian` receives f — judge (and
+                    # classify) what p∂f did, reported for this case
+                    case = dict(case, program=program("partial-named", body, env, as_int, tree, var),
+                                instead_of=prog)
+                    status, val, fell_back = st2, v2, fb2
+                    if fell_back and backend == "torch":
+                        numeric, site = True, "torch:jacobian:numeric-fallback"
             if proj and form not in ("nabla", "nabla-sym", "nabla-inline"):
                 # every form except dyadic ∇ reaches the function through autograd._invoke_fn, which unwraps
                 # a KGFn to its body and so drops a projection's fixed arguments
@@ -1435,6 +1538,18 @@ def _run_case(ctx, model, real, fam, tree, params, forms=None, backends=None, qu
                                     "c^e with c a plain number and e depending on the differentiated variable: "
                                     "torch autograd raises or drops the c^e*ln(c) term (numpy is right)")
                     continue
+            if numeric and fclass == "jacobian" and any(env.kind(q) == "S" for q in env.params) \
+                    and ops_in(tree) & (set(ADVERB_DYADS) | {"scan"}):
+                # numeric_jacobian flattens the point: a scalar point reaches g as a one-element LIST, and
+                # adverbs (which tell atoms from lists) then raise or build another shape inside g
+                g0 = assemble(val, form, env, m, n) if status == "ok" else None
+                if g0 is None or judge(g0, orc, backend, numeric, nops)[0] == "wrong-value":
+                    ctx.bump("deviation:jacobian:scalar-point-handed-over-as-list")
+                    ctx.oracle_fail("jacobian:scalar-point-handed-over-as-list", case,
+                                    [[float(q) for q in r] for r in orc.jac],
+                                    val if status == "exc" else g0.tolist() if g0 is not None else repr(val)[:200],
+                                    "numeric Jacobian at a scalar point of a function using an adverb")
+                    continue
             if status == "exc" and "Integers to negative integer powers" in val:
                 # `^` turns whole-valued results into integers; an integer ARRAY (the probes are 0-d /
                 # n-d arrays) to a negative power is refused by numpy.  Plain `([2.0 1.0]^2)^-1` fails alike.
@@ -1449,6 +1564,13 @@ def _run_case(ctx, model, real, fam, tree, params, forms=None, backends=None, qu
                 ctx.oracle_fail("torch:numeric:tensor-power-numpy-exponent", case, "the derivative", val,
                                 "numeric differentiation hands numpy probes to the function; a tensor constant "
                                 "raised to such a probe ([2.0 1.0]^x) is refused by Tensor.pow")
+                continue
+            if status == "exc" and backend == "torch" and numeric and "must be Tensor, not numpy." in val \
+                    and "numpy.float64" not in val:
+                ctx.bump("raises:torch:numeric:backend-function-on-numpy-scalar")
+                ctx.oracle_fail("torch:numeric:backend-function-on-numpy-scalar", case, "the derivative", val,
+                                "a .bkf function applied to a numpy integer / float32 scalar inside a numerically "
+                                "differentiated function: the torch wrapper converts only Python int / float")
                 continue
             if status == "exc" and backend == "torch" and numeric and "must be Tensor, not" in val:
                 ctx.bump("raises:torch:numeric:backend-function-on-scalar")
@@ -1750,6 +1872,140 @@ def _bookkeeping_once(ctx, drv, ag, k, be, KGSym):
                 ctx.bump("bookkeeping:multi_grad_of_fn")
 
 
+# =========================================================================== points supplied from Python
+
+PY_CLASSES = {
+    "numpy": ["np-f64", "np-f32", "np-int", "np-0d", "py-float", "py-int", "np-f64-readonly"],
+    "torch": ["np-f64", "np-int", "t-f32", "t-f64", "t-int", "t-0d", "leaf", "leaf-0d", "leaf-f64", "param",
+              "nongrad-view"],
+}
+
+
+def make_point(cls, vals):
+    """the evaluation point as the Python object of class `cls` (vals: list of fractions; one value = 0-d)"""
+    import torch
+    fl = [float(v) for v in vals]
+    scalar = cls.endswith("0d") or cls.startswith("py-")
+    if cls == "py-float":
+        return fl[0]
+    if cls == "py-int":
+        return int(fl[0])
+    if cls.startswith("np-"):
+        a = np.array(fl[0] if scalar else fl, dtype={"np-f32": np.float32, "np-int": np.int64}.get(cls, np.float64))
+        if cls == "np-f64-readonly":
+            a.setflags(write=False)
+        return a
+    data = fl[0] if scalar else fl
+    if cls == "t-f32" or cls == "t-0d":
+        return torch.tensor(data, dtype=torch.float32)
+    if cls == "t-f64":
+        return torch.tensor(data, dtype=torch.float64)
+    if cls == "t-int":
+        return torch.tensor([int(v) for v in fl], dtype=torch.int64)
+    if cls in ("leaf", "leaf-0d"):
+        return torch.tensor(data, dtype=torch.float32, requires_grad=True)
+    if cls == "leaf-f64":
+        return torch.tensor(data, dtype=torch.float64, requires_grad=True)
+    if cls == "param":
+        return torch.nn.Parameter(torch.tensor(data, dtype=torch.float32))
+    if cls == "nongrad-view":
+        return torch.tensor(fl + [0.0], dtype=torch.float32)[:-1]
+    raise ValueError(cls)
+
+
+def run_python_points(ctx, real, count, quick):
+    """evaluation points handed in through the Python API (klong['pp'] = obj), of every class, and
+    REPEATED differentiation at the same point object with different functions: every result against the
+    exact gradient, and the earlier results must not change afterwards"""
+    backends = ["numpy"] + (["torch"] if real.have_torch() else [])
+    for it in range(count):
+        backend = ctx.rng.choice(backends)
+        cls = ctx.rng.choice(PY_CLASSES[backend])
+        scalar = cls.endswith("0d") or cls.startswith("py-")
+        whole = "int" in cls
+        grid = [Fr(v) for v in (1, 2, 3, -1, -2)] if whole else GRID
+        vals = [ctx.rng.choice(grid) for _ in range(1 if scalar else ctx.rng.choice([1, 2, 3, 4]))]
+        params = {"x": vals[0] if scalar else vals}
+        env = Env(params)
+        trees = []
+        for _ in range(60):
+            t = gen_s(ctx.rng, env, ctx.rng.choice([1, 2, 2]), ctx.rng.random() < 0.2)
+            if not depends(t, "x") or ops_in(t) & {"each2", "scan", "scanN"} or tree_size(t) > 14:
+                continue
+            try:
+                trees.append((t, Oracle(t, env)))
+            except (NotSmooth, ZeroDivisionError, OverflowError, ValueError):
+                continue
+            if len(trees) == 3:
+                break
+        if len(trees) < 3:
+            continue
+        plan = [("ag", 0), ("ag", 0), ("ag", 1), ("nabla-sym", 2), ("nabla-monad", 1), ("ag", 0)]
+        if quick:
+            plan = plan[:3] + [ctx.rng.choice(plan[3:])]
+        case = dict(kind="python-point", backend=backend, cls=cls, x=[frs(v) for v in vals],
+                    functions=[render(t) for t, _ in trees], trees=[t for t, _ in trees], plan=plan)
+        try:
+            _python_point_once(ctx, real, backend, cls, vals, env, trees, plan, case)
+        except common.Infra:
+            raise
+        except Exception as e:                               # noqa: BLE001
+            import traceback
+            real.drop(backend)
+            ctx.oracle_fail(f"harness:python-point:{type(e).__name__}", case, "a comparable result",
+                            traceback.format_exc()[-600:])
+
+
+def _python_point_once(ctx, real, backend, cls, vals, env, trees, plan, case):
+    k = real.interp(backend)
+    for i, (t, _) in enumerate(trees):
+        k(f"pf{i}::{{{render(t)}}}")
+    obj = make_point(cls, vals)
+    k["pp"] = obj
+    kept = []
+    m, n = 1, env.n
+    for step, (form, fi) in enumerate(plan):
+        tree, orc = trees[fi]
+        prog = {"ag": f"pf{fi}:>pp", "nabla-sym": f"pp∇pf{fi}", "nabla-monad": f"gq::∇pf{fi};gq(pp)"}[form]
+        numeric = form == "nabla-sym" or backend == "numpy"
+        cs = dict(case, step=step, program=prog)
+        ctx.count(("pypoint", backend, cls, tuple(case["x"]), render(tree), step))
+        site = f"pypoint:{backend}:{cls}:{form}"
+        try:
+            raw = k(prog)
+            snap = np.array(to_np(raw), dtype=float, copy=True)
+        except Exception as e:                               # noqa: BLE001
+            real.drop(backend)
+            ctx.oracle_fail(f"{site}:raises:{type(e).__name__}", cs, "the gradient", f"{type(e).__name__}: {str(e)[:160]}",
+                            "differentiation at a point supplied from Python")
+            return
+        if snap.size != n:
+            ctx.oracle_fail(f"{site}:wrong-shape", cs, f"{n} values", repr(snap)[:200])
+            return
+        got = snap.reshape(m, n)
+        kind, J, tol, where = judge(got, orc, backend, numeric, tree_size(tree))
+        if kind == "float32-evaluation" and not direct_probe(tree):
+            ctx.oracle_fail("torch:nabla:float32-evaluation", cs, J.tolist(), got.tolist())
+            ctx.bump("pypoint:known-float32")
+        elif kind != "ok":
+            i, j = where
+            ctx.oracle_fail(f"{site}:{kind}", cs, dict(exact=J.tolist(), tolerance=float(tol[i, j])), got.tolist(),
+                            f"evaluation {step + 1} at the same point object: exact {J[i, j]!r}, returned {got[i, j]!r}")
+            ctx.bump("deviation:" + site)
+            return
+        else:
+            ctx.bump(f"ok:pypoint:{backend}:{cls}")
+        kept.append((step, prog, raw, snap))
+    # earlier results are values: later differentiations must not change them
+    for step, prog, raw, snap in kept:
+        now = np.array(to_np(raw), dtype=float)
+        if now.shape != snap.shape or not np.array_equal(now, snap):
+            ctx.oracle_fail(f"pypoint:{backend}:{cls}:result-changed-afterwards", dict(case, step=step, program=prog),
+                            snap.tolist(), now.tolist(),
+                            "a gradient returned earlier changed its value when the point was differentiated again")
+            return
+
+
 # =========================================================================== fixed cases (always run)
 
 FIXED = [
@@ -1784,6 +2040,25 @@ FIXED = [
     ("probe", ["sum", ["call", "exp", ["par", "x"]]], {"x": [Fr(1), Fr(2), Fr(-1, 2)]}),
     ("probe", ["mul", ["call", "sqrt", ["par", "x"]], ["call", "log", ["par", "x"]]], {"x": Fr(2)}),
     ("probe", ["sum", ["mul", ["par", "x"], ["call", "cos", ["par", "x"]]]], {"x": [Fr(3, 2), Fr(3)]}),
+    # adverbs inside the differentiated function, at scalar and vector points (the ATOM case of :/ and :\)
+    ("scalar", ["sum", ["eachR", "%", ["vconst", ["1/1", "2/1", "3/1"]], ["par", "x"]]], {"x": Fr(2)}),
+    ("scalar", ["sum", ["eachR", "-", ["vconst", ["1/1", "2/1", "3/1"]], ["par", "x"]]], {"x": Fr(2)}),
+    ("scalar", ["sum", ["eachL", "%", ["vconst", ["1/1", "2/1", "3/1"]], ["par", "x"]]], {"x": Fr(2)}),
+    ("scalar", ["sum", ["eachR", "L%", ["vconst", ["1/1", "2/1"]], ["mul", ["par", "x"], ["par", "x"]]]], {"x": Fr(3, 2)}),
+    ("scalar", ["eachR", "^", ["par", "x"], ["const", "2/1"]], {"x": Fr(3)}),
+    ("vector", ["sum", ["eachR", "%", ["const", "2/1"], ["par", "x"]]], {"x": [Fr(2), Fr(4)]}),
+    ("vector", ["sum", ["eachL", "%", ["const", "2/1"], ["par", "x"]]], {"x": [Fr(2), Fr(4)]}),
+    ("vector", ["sum", ["eachR", "-", ["par", "x"], ["const", "2/1"]]], {"x": [Fr(2)]}),
+    ("vector", ["sum", ["each2", "%", ["vconst", ["1/1", "2/1"]], ["par", "x"]]], {"x": [Fr(2), Fr(4)]}),
+    ("vector", ["overN", "%", ["const", "10/1"], ["par", "x"]], {"x": [Fr(2), Fr(4)]}),
+    ("vector", ["overN", "-", ["const", "1/1"], ["par", "x"]], {"x": [Fr(2), Fr(4)]}),
+    ("vector", ["sum", ["scanN", "*", ["const", "1/1"], ["par", "x"]]], {"x": [Fr(2), Fr(4)]}),
+    ("vector", ["sum", ["scan", "*", ["par", "x"]]], {"x": [Fr(2), Fr(4), Fr(1, 2)]}),
+    ("multi", ["sum", ["eachR", "%", ["par", "w"], ["par", "b"]]], {"w": [Fr(1), Fr(2), Fr(3)], "b": Fr(2)}),
+    ("jac", ["eachR", "-", ["vconst", ["1/1", "2/1", "3/1"]], ["par", "x"]], {"x": Fr(2)}),
+    ("jac", ["join", [["each2", "+", ["par", "x"], ["const", "1/1"]], ["gpow", ["par", "x"], ["par", "x"]]]], {"x": Fr(2)}),
+    ("jac", ["join", [["const", "1/4"], ["call", "sqrt", ["idx", ["pow", ["par", "x"], 0], 0]]]],
+     {"x": [Fr(1, 2), Fr(3), Fr(3)]}),
     # projections as the function operand, with and without unrelated globals named like the slots
     ("proj", ["mul", ["par", "x"], ["fixed", "y", ["const", "3/1"]]], {"x": Fr(2)},
      dict(proj=dict(free="x", arity=2), globals=True)),
@@ -1851,7 +2126,8 @@ def run(ctx):
     model = Model(drv) if drv else None
     real = Real()
     ctx.rule = ("typed random expression trees (depth <= 3, size <= 14 quick / 22 thorough) over + - * %, integer powers "
-                "-2..4, powers with an expression as exponent (x^x, (x@0)^(x@1), w^p, c^x), negate, +/ */ @ # each, named functions sq cube recip (exact) and sin cos exp log sqrt tanh, "
+                "-2..4, adverbs a f:/b a f:\\b a f'b a f/b a f\\b f\\a over - % ^ + * and dyadic lambdas (atom and list operands), "
+                "powers with an expression as exponent (x^x, (x@0)^(x@1), w^p, c^x), negate, +/ */ @ # each, named functions sq cube recip (exact) and sin cos exp log sqrt tanh, "
                 "scalar / vector / matrix / multi-parameter, x half-integer grid points in [-2.5, 3] with every "
                 "denominator / log / sqrt argument >= 1/4, x forms f:>p, named, by symbol, p∇f, x∇f, ∇f, p∂g, "
                 ".jacobian, loss:>[..], [..]∂g, x numpy and torch; plus fixed cases from the test-suite and "
@@ -1889,6 +2165,7 @@ def run(ctx):
                 c = json.loads(p.read_text())
                 run_case(ctx, model, real, c["family"], c["tree"], params_from_json(c["params"]), quick=False)
         run_bookkeeping(ctx, drv, 60 if quick else 600)
+        run_python_points(ctx, real, 50 if quick else 600, quick)
         ncases = 260 if quick else 3200
         done = 0
         while done < ncases:
@@ -1913,8 +2190,16 @@ def replay(ctx, case):
             backends = [c["backend"]] if "backend" in c else None
             run_case(ctx, model, real, c["family"], c["tree"], params_from_json(c["params"]),
                      forms=forms, backends=backends, quick=False, as_int=c.get("as_int"), var=c.get("var"))
+        elif c.get("kind") == "python-point":
+            vals = [Fr(v) for v in c["x"]]
+            scalar = c["cls"].endswith("0d") or c["cls"].startswith("py-")
+            env = Env({"x": vals[0] if scalar else vals})
+            trees = [(t, Oracle(t, env)) for t in c["trees"]]
+            _python_point_once(ctx, real, c["backend"], c["cls"], vals, env, trees, [tuple(p_) for p_ in c["plan"]],
+                               {k_: v_ for k_, v_ in c.items() if k_ not in ("step", "program")})
         else:
             run_bookkeeping(ctx, drv, 200)
+            run_python_points(ctx, real, 100, False)
     finally:
         if drv:
             drv.close()
